@@ -274,7 +274,8 @@ def r_tagself(db, rep):
         rep.visit(sv)
         tc = tag_check_in_loader(db, ld, rep)
         if tc is None:
-            continue  # reported by R-TAGS
+            rep.inst(sv.loc, "%s: loader has no tag check (reported by R-TAGS)" % sv.qn)
+            continue
         first = None
         for n in sv.nodes():
             if n["k"] == "CallExpr" and callee_name(n) == "saveValue":
